@@ -181,8 +181,11 @@ def run_case(ctx, snap, argv, fmt="tabs", cwd=None, relation="runMain (model) = 
                     "tz": snap.tz}
             if extra:
                 case.update(extra)
-            ctx.disagree(relation, case, {"status": mres.get("status"), "out": mres.get("out", b"")[:300].decode("utf-8", "replace"),
+            mo, io = mres.get("out", b""), impl["out"]
+            k = next((j for j in range(min(len(mo), len(io))) if mo[j] != io[j]), min(len(mo), len(io)))
+            lo = max(0, k - 120)
+            ctx.disagree(relation, case, {"status": mres.get("status"), "out": mo[lo:k + 180].decode("utf-8", "replace"),
                                           "errs": [e.decode("utf-8", "replace") for e in mres.get("errs", [])]},
-                         {"status": impl["status"], "out": impl["out"][:300].decode("utf-8", "replace"),
+                         {"status": impl["status"], "out": io[lo:k + 180].decode("utf-8", "replace"), "first_diff_at": k,
                           "err": impl["err"][:300].decode("utf-8", "replace"), "why": d})
     return mres, impl
